@@ -112,8 +112,8 @@ class MiniEval:
                 if st.value is not None:
                     self.assign(st.target, self.ev(st.value, env), env)
                 continue
-            if isinstance(st, ast.AugAssign) and isinstance(st.target, ast.Name):
-                cur = self.name(st.target.id, env)
+            if isinstance(st, ast.AugAssign) and isinstance(st.target, (ast.Name, ast.Attribute, ast.Subscript)):
+                cur = self.name(st.target.id, env) if isinstance(st.target, ast.Name) else self.ev(st.target, env)
                 val = self.ev(st.value, env)
                 # augmented assignment on Python's mutable containers works IN PLACE (aliases see the change)
                 if isinstance(cur, dict) and isinstance(val, dict) and isinstance(st.op, ast.BitOr):
@@ -132,7 +132,7 @@ class MiniEval:
                 if isinstance(cur, list) and isinstance(val, (list, tuple)) and isinstance(st.op, ast.Add):
                     cur.extend(val)
                     continue
-                env[st.target.id] = self.binop(st.op, cur, val)
+                self.assign(st.target, self.binop(st.op, cur, val), env)
                 continue
             if isinstance(st, ast.Assert):
                 continue
